@@ -53,7 +53,7 @@ func VerifC13_Queue_Bounds() {
 // select wakes on ctx.Done); with a context that is never cancelled it keeps waiting (bounded
 // unrolling of the retry loop; the loop body is stateless apart from the clock).
 //
-//verif:harness property=C13 theory=bv tier=quick replay=engine unwind=4 unwindcut=1 clock=frozen
+//verif:harness property=C13 theory=bv tier=quick replay=engine unwind=4 unwind_thorough=7 unwindcut=1 clock=frozen
 func VerifC13_Blocking() {
 	d := &recLimiter{alwaysNo: true}
 	to := verif.Int64("timeout")
@@ -83,7 +83,7 @@ func VerifC13_Blocking() {
 // delegate; otherwise it returns refused exactly at min(deadline, cancellation) and never blocks
 // past it (in particular not when the clock reads exactly the deadline).
 //
-//verif:harness property=C13 theory=bv tier=quick blocked=violation replay=engine unwind=4 unwindcut=1 clock=frozen
+//verif:harness property=C13 theory=bv tier=quick blocked=violation replay=engine unwind=4 unwind_thorough=7 unwindcut=1 clock=frozen
 func VerifC13_Deadline() {
 	d := &recLimiter{alwaysNo: true}
 	dl := verif.Int64("deadline")
